@@ -243,6 +243,122 @@ pub fn peeling_spec(j: usize) -> Spec {
     Spec { row, n, key_style: 0, val_kind: (j % 6) as u8, val_bits: 1 + (j * 7 % 64) as u32, cfg, cfg2: None }
 }
 
+/// One build per key type for which the crate implements `ToSig` (the strings
+/// in their four forms, the twelve primitive integers, slices of them), at a
+/// key count that the default logic shards, and a small one: the signature of
+/// every key type must be good enough for the build to terminate and verify.
+fn key_type_case(cx: &mut Ctx, j: u64) -> R {
+    use sux::bits::BitFieldVec;
+    use sux::func::shard_edge::{FuseLge3NoShards, FuseLge3Shards};
+    use sux::func::VBuilder;
+    let big = j % 2 == 0;
+    let two_words = (j / 2) % 2 == 0;
+    let ty = (j / 4) % 22;
+    macro_rules! def_run {
+        ($fname:ident, $S:ty, $E:ty) => {
+    fn $fname<T: std::fmt::Debug + Send + Sync + 'static + ToSig<$S>>(cx: &mut Ctx, name: &str, keys: Vec<T>) -> R {
+        type S = $S;
+        type E = $E;
+        let n = keys.len();
+        cx.hash(&("key-type", name, n, std::any::type_name::<S>()));
+        cx.describe(|| format!("key type {name}: {n} keys, signatures {}, logic {}", std::any::type_name::<S>(), std::any::type_name::<E>()));
+        cx.label(&format!("key:{name}"));
+        cx.nontrivial();
+        let keys = Arc::new(keys);
+        let klog = Arc::new(Mutex::new(Log::default()));
+        let kl = PlanLender::new(keys.clone(), Fault::None, "keys", klog.clone());
+        let vl = PlanLender::new(Arc::new((0..n).collect::<Vec<usize>>()), Fault::None, "values", Arc::new(Mutex::new(Log::default())));
+        let r = cx.must("try_build_func", || VBuilder::<usize, BitFieldVec<usize>, S, E>::default().try_build_func(kl, vl, dsi_progress_logger::no_logging![]))?;
+        let f = match r {
+            Ok(f) => f,
+            Err(e) => {
+                if klog.lock().unwrap().too_many {
+                    return Err(Fail::nonconv("attempt-bound", format!("attempt-bound: try_build_func did not converge within {} attempts on {n} distinct keys of type {name} ({})", max_rewinds(n), std::any::type_name::<E>())));
+                }
+                return Err(Fail::mismatch("build.err", format!("build.err: key type {name}: {e:#}")));
+            }
+        };
+        for (i, k) in keys.iter().enumerate() {
+            let g = cx.must("get", || f.get(k))?;
+            if g != i {
+                return Err(Fail::mismatch("get", format!("get: key type {name}: key #{i} {k:?} maps to {g}")));
+            }
+        }
+        Ok(())
+    }
+        };
+    }
+    def_run!(run2, [u64; 2], FuseLge3Shards);
+    def_run!(run1, [u64; 1], FuseLge3NoShards);
+    macro_rules! go {
+        ($name:expr, $keys:expr) => {{
+            if two_words {
+                run2(cx, $name, $keys)
+            } else {
+                run1(cx, $name, $keys)
+            }
+        }};
+    }
+    macro_rules! ints {
+        ($t:ty) => {{
+            let n = if big { 100_003usize } else { 1000 }.min(<$t>::MAX as u128 as usize / 2 + 1).min(60_000usize.max(if <$t>::BITS > 16 { usize::MAX } else { 0 }));
+            go!(stringify!($t), (0..n).map(|i| (i as u128).wrapping_mul(0x9E37_79B9_7F4A_7C15_F39C_C060_5CED_C835) as $t).collect::<std::collections::BTreeSet<$t>>().into_iter().collect::<Vec<$t>>())
+        }};
+    }
+    let n = if big { 100_003usize } else { 1000 };
+    match ty {
+        0 => go!("String", (0..n).map(|i| format!("key{i}")).collect::<Vec<String>>()),
+        1 => {
+            let v: &'static Vec<String> = Box::leak(Box::new((0..n).map(|i| format!("key{i}")).collect()));
+            go!("&String", v.iter().collect::<Vec<&'static String>>())
+        }
+        2 => {
+            let v: &'static Vec<String> = Box::leak(Box::new((0..n).map(|i| format!("key{i}")).collect()));
+            go!("&str", v.iter().map(|s| s.as_str()).collect::<Vec<&'static str>>())
+        }
+        3 => ints!(usize),
+        4 => ints!(isize),
+        5 => ints!(u8),
+        6 => ints!(i8),
+        7 => ints!(u16),
+        8 => ints!(i16),
+        9 => ints!(u32),
+        10 => ints!(i32),
+        11 => ints!(u64),
+        12 => ints!(i64),
+        13 => ints!(u128),
+        14 => ints!(i128),
+        15 => {
+            let v: &'static Vec<Vec<u8>> = Box::leak(Box::new((0..n).map(|i| format!("k{i}").into_bytes()).collect()));
+            go!("&[u8]", v.iter().map(|s| s.as_slice()).collect::<Vec<&'static [u8]>>())
+        }
+        16 => {
+            let v: &'static Vec<Vec<u64>> = Box::leak(Box::new((0..n as u64).map(|i| vec![i, i ^ 7, 3][..1 + (i % 3) as usize].to_vec()).collect::<std::collections::BTreeSet<Vec<u64>>>().into_iter().collect()));
+            go!("&[u64]", v.iter().map(|s| s.as_slice()).collect::<Vec<&'static [u64]>>())
+        }
+        17 => {
+            let v: &'static Vec<Vec<i32>> = Box::leak(Box::new((0..n as i32).map(|i| vec![i, -i]).collect()));
+            go!("&[i32]", v.iter().map(|s| s.as_slice()).collect::<Vec<&'static [i32]>>())
+        }
+        18 => {
+            let v: &'static Vec<Vec<u16>> = Box::leak(Box::new((0..n).map(|i| vec![i as u16, (i >> 16) as u16, 9]).collect()));
+            go!("&[u16]", v.iter().map(|s| s.as_slice()).collect::<Vec<&'static [u16]>>())
+        }
+        19 => {
+            let v: &'static Vec<Vec<usize>> = Box::leak(Box::new((0..n).map(|i| vec![i]).collect()));
+            go!("&[usize]", v.iter().map(|s| s.as_slice()).collect::<Vec<&'static [usize]>>())
+        }
+        20 => {
+            let v: &'static Vec<Vec<u128>> = Box::leak(Box::new((0..n as u128).map(|i| vec![i << 70 | i]).collect()));
+            go!("&[u128]", v.iter().map(|s| s.as_slice()).collect::<Vec<&'static [u128]>>())
+        }
+        _ => {
+            let v: &'static Vec<Vec<i8>> = Box::leak(Box::new((0..n).map(|i| vec![i as i8, (i >> 8) as i8, (i >> 16) as i8]).collect()));
+            go!("&[i8]", v.iter().map(|s| s.as_slice()).collect::<Vec<&'static [i8]>>())
+        }
+    }
+}
+
 impl Property for C07 {
     fn id(&self) -> &'static str {
         "C07"
@@ -256,6 +372,8 @@ impl Property for C07 {
             // the pure peeling regimes of the fuse logics (no lazy Gaussian elimination above 800000 keys; expansion
             // factor switches at 5, 10 and 20 million keys; sharded peeling from 20 million keys)
             Segment::enumerated("peeling-regimes", tier.pick(10, 48), &[3]),
+            // every key type with a ToSig implementation x {sharded size, small} x {128-bit, 64-bit signatures}
+            Segment::enumerated("every-key-type", 22 * 4, &[4]),
         ]
     }
     fn watchdog_s(&self) -> u64 {
@@ -266,7 +384,7 @@ impl Property for C07 {
         true
     }
     fn rule(&self) -> &'static str {
-        "case = (row of a 20-row table of (key type in usize/u64/u8/String/str, value word u8..usize, backend Box<[W]>/BitFieldVec<W>, signature 64/128 bits, one of the 5 shard/edge logics), n, key style (dense/strided/permuted, prefix families, unicode), value kind (identity, all zero, all ones, uniform b-bit, one outlier), configuration (offline, low_mem, threads in 1..16, eps, log2_buckets, seed, expected_num_keys absent/exact/half/double/zero/another sharding regime, check_dups), optionally a second configuration) decoded from bytes; plus the enumeration of every n in 0..=130 on every table row with the default configuration; plus sizes around the 100k/200k/400k/800k/1.7M regime switches; plus an enumerated segment of builds in the pure peeling regimes (800001/800002 keys on the sharded logics, 100001..150001 on FuseLge3NoShards, 10^6, 2.5*10^6; thorough also 5*10^6+-1, 10^7(+1), 2*10^7+1 and 2.05*10^7 keys: every expansion-factor bracket and sharded peeling) with low/high-memory peeling, 1..16 threads, on- and off-line stores. Keys come from a harness lender that counts passes and fails its 65th rewind (deterministic termination bound). Oracle = the input pairs: Ok, len()==n, get(k_i)==v_i for all i, get_unaligned where the width is admissible, agreement between configurations. Non-trivial: n>=1; distinct = distinct hash of the decoded spec."
+        "case = (row of a 20-row table of (key type in usize/u64/u8/String/str, value word u8..usize, backend Box<[W]>/BitFieldVec<W>, signature 64/128 bits, one of the 5 shard/edge logics), n, key style (dense/strided/permuted, prefix families, unicode), value kind (identity, all zero, all ones, uniform b-bit, one outlier), configuration (offline, low_mem, threads in 1..16, eps, log2_buckets, seed, expected_num_keys absent/exact/half/double/zero/another sharding regime, check_dups), optionally a second configuration) decoded from bytes; plus the enumeration of every n in 0..=130 on every table row with the default configuration; plus sizes around the 100k/200k/400k/800k/1.7M regime switches; plus an enumerated segment of builds in the pure peeling regimes (800001/800002 keys on the sharded logics, 100001..150001 on FuseLge3NoShards, 10^6, 2.5*10^6; thorough also 5*10^6+-1, 10^7(+1), 2*10^7+1 and 2.05*10^7 keys: every expansion-factor bracket and sharded peeling) with low/high-memory peeling, 1..16 threads, on- and off-line stores. Plus one build per key type with a ToSig implementation (String, &String, &str, the twelve primitive integers, slices of seven element types) at 100003 keys (sharded) and 1000 keys, with 128- and 64-bit signatures. Keys come from a harness lender that counts passes and fails its 65th rewind (deterministic termination bound). Oracle = the input pairs: Ok, len()==n, get(k_i)==v_i for all i, get_unaligned where the width is admissible, agreement between configurations. Non-trivial: n>=1; distinct = distinct hash of the decoded spec."
     }
     fn run(&self, data: &[u8], cx: &mut Ctx) -> R {
         let (mode, rest) = data.split_first().unwrap_or((&0, &[]));
@@ -287,6 +405,10 @@ impl Property for C07 {
             }
             cx.label("enumerated-n");
             Spec { row, n, key_style: 0, val_kind: (j % 6) as u8, val_bits: 1 + (j % 64) as u32, cfg, cfg2: None }
+        } else if *mode == 4 {
+            let mut b = [0u8; 8];
+            b[..rest.len().min(8)].copy_from_slice(&rest[..rest.len().min(8)]);
+            return key_type_case(cx, u64::from_le_bytes(b));
         } else if *mode == 3 {
             let mut b = [0u8; 8];
             b[..rest.len().min(8)].copy_from_slice(&rest[..rest.len().min(8)]);
